@@ -35,6 +35,8 @@ pub mod lints;
 pub mod parser;
 pub mod passes;
 pub mod reader;
+#[cfg(rva_verif)]
+pub mod verif_hooks;
 
 // #[test]
 // fn parse_int_from_symbol() {
